@@ -122,6 +122,15 @@ def fam_handles(seed, big):
                 out.append({"id": "h%d" % i, "kind": "handle", "class": "handle-write", "handle": handle, "script": script,
                             "write": wr, "detached": False})
                 i += 1
+    # adapters that own further pipe ends the caller can neither read nor release
+    for handle, scripts in (("pl_stream_stdin_outpipe", (["wo300000", "R", "x0"], ["R", "x0"], ["wo10", "x0"])),
+                            ("stream_stdin_outpipe", (["wo300000", "R", "x0"], ["R", "wo300000", "x0"])),
+                            ("pl_stream_stdout_errpipe", (["we300000", "wo10", "x0"], ["wo300000", "we300000", "x0"]))):
+        for script in scripts:
+            for wr in (0, 10):
+                out.append({"id": "h%d" % i, "kind": "handle", "class": "handle-extra-pipes", "handle": handle,
+                            "script": list(script), "write": wr, "read": 4, "detached": False})
+                i += 1
     for handle in ("join", "capture", "pl_join", "pl_capture", "popen_plain"):
         for script in (["x0"], ["s40", "x5"], ["wo100", "we100", "x0"], ["wo" + str(BIG), "x0"], ["k15"], ["k9"]):
             if handle in ("join", "popen_plain", "pl_join") and script[0].startswith("wo3"):
